@@ -255,12 +255,13 @@ impl Vm {
 
     // DeclareClass: a class under construction whose table is Object's (every class derives Object), a placeholder on
     // the stack; DefineClass: the class becomes a shared object with exactly the tables assembled, linked to its metaclass
-    //@fn file=yarel/src/vm.rs path=Vm::declare_class_impl
+    //@fn file=yarel/src/vm.rs path=Vm::declare_class_impl props=C07,C15
     //@  subst "self.new_gc_obj_string(format!(\"{}Class\", *name).as_str())" => "metaclass_name(self, name)"
     //@  subst "UniqueRoot::new(" => "unique_root_new("
     //@  subst "object::new_obj_string_value_map()" => "new_obj_string_value_map()"
     //@  subst "ClassDef::new(class, metaclass)" => "ClassDef { class, metaclass }"
     //@  ensures @a_declared_class_starts_with_objects_methods final(self).working_class_def is Some && final(self).working_class_def->0.class.methods.view =~= object_methods() && final(self).working_class_def->0.metaclass.methods.view =~= object_methods()
+    //@  ensures @a_class_declaration_starts_a_class_of_the_declared_name_whatever_an_abandoned_declaration_left_behind final(self).working_class_def is Some && final(self).working_class_def->0.class.name.id() == old(self).next_name
     //@  ensures final(self).stack == old(self).stack.push(Value::None), final(self).insts == old(self).insts, final(self).mods == old(self).mods
     //@end
     //@fn file=yarel/src/vm.rs path=Vm::define_class_impl
